@@ -280,6 +280,54 @@ def task(args):
     return p
 
 
+def nonfinite_task(_):
+    """Images with inf / -inf / NaN pixels (sensor dropouts, padding markers): a cutmix result is still sample i with one box
+    of its partner pasted - every output pixel is, bit for bit, the pixel of x_i or of x_p(i) at that place."""
+    import numpy as np
+    import torch
+    from kappadata.collators.kd_mix_collator import KDMixCollator
+    p = Partial()
+    for B in (2, 3, 4):
+        for (H, W) in ((4, 4), (5, 6)):
+            for lamb_mode in ("batch", "sample"):
+                for shuffle_mode in ("roll", "flip"):
+                    if shuffle_mode == "flip" and B % 2:
+                        continue
+                    for seed in range(6):
+                        xs = []
+                        for i in range(B):
+                            x = torch.full((2, H, W), float(i + 1))
+                            x[0, 0, 0] = float("inf")
+                            x[1, H - 1, W - 1] = float("nan")
+                            x[0, H // 2, W // 2] = float("-inf")
+                            xs.append(x)
+                        batch = [(xs[i].clone(), torch.nn.functional.one_hot(torch.tensor(i), B).float()) for i in range(B)]
+                        case = dict(nonfinite=True, B=B, hw=(H, W), lamb_mode=lamb_mode, shuffle_mode=shuffle_mode, seed=seed)
+                        p.evaluations += 1
+                        try:
+                            col = KDMixCollator(cutmix_p=1.0, cutmix_alpha=1.0, apply_mode="batch", lamb_mode=lamb_mode,
+                                                shuffle_mode=shuffle_mode, dataset_mode="x class", return_ctx=False)
+                            col.set_rng(np.random.default_rng(seed))
+                            out_x, out_y = col(batch)
+                        except Exception as e:
+                            p.violation(f"C10:nonfinite:exception:{type(e).__name__}|lamb_mode={lamb_mode}", case, repr(e))
+                            continue
+                        for i in range(B):
+                            partner = (i - 1) % B if shuffle_mode == "roll" else B - 1 - i
+                            a, b, o = xs[i], xs[partner], out_x[i]
+                            same_a = (o == a) | (torch.isnan(o) & torch.isnan(a))
+                            same_b = (o == b) | (torch.isnan(o) & torch.isnan(b))
+                            if not bool((same_a | same_b).all()):
+                                r = (~(same_a | same_b)).nonzero()[0].tolist()
+                                p.violation(f"C10:nonfinite:pixel_from_neither_sample|lamb_mode={lamb_mode}|shuffle={shuffle_mode}", case,
+                                            f"{case}: sample {i} pixel {r} is {float(o[tuple(r)])}, x_i has {float(a[tuple(r)])}, the partner "
+                                            f"{float(b[tuple(r)])}")
+                                break
+                        else:
+                            p.observe(("nonfinite", B, H, W, lamb_mode, shuffle_mode, seed))
+    return p
+
+
 def mae_task(_):
     """MAE fine-tune collator (compose collator around the mix collator) as one more configuration."""
     import torch
@@ -334,6 +382,7 @@ def run(run):
     tasks = [(cfgs[i:i + chunk], max_dev, cap, run.tier) for i in range(0, len(cfgs), chunk)]
     run.pmap(task, tasks)
     run.pmap(mae_task, [0])
+    run.pmap(nonfinite_task, [0])
     capped = run.counters.get("configs_capped", 0)
     run.exhaustive = capped == 0
     run.extra.update(bounds=dict(B="1..4", deviation_bound=f"{max_dev} ({max_dev - 1} for B>=3)", execution_cap_per_config=cap, unit_alphabet=UNIT,
@@ -351,6 +400,9 @@ def replay(case):
     if case.get("mae"):
         p = mae_task(0)
         return None if not p.violations else "; ".join(m for _, m in p.violations.values())
+    if case.get("nonfinite"):
+        p = nonfinite_task(0)
+        return None if not p.violations else "; ".join(m for _, m in list(p.violations.values())[:3])
     cfg = dict(case["cfg"])
     cfg["hw"] = tuple(cfg["hw"])
     cfg["kw"] = [c for c in configs("thorough") if c["kind"] == cfg["kind"]][0]["kw"]
